@@ -352,6 +352,22 @@ def run(chk: common.Check, tier: str):
                    "lookaheads, cut, forced items, named items, keywords, wrappers over repetitions, flattened rules), evaluated in Coq on the generator model's output "
                    "(the same output the K-gen comparison checks against the real generator's text)",
                    not bad and all(floor), json.dumps([RB_SEEDS[i] for i in bad]))
+    # the tie of that module to the code: the generator model's rendered output for these grammars is, character by
+    # character, what the real generator writes (the same comparison C10 makes on its own grammars)
+    import genmodel as gm
+    kcases = []
+    for t in RB_SEEDS + [x for x in texts if x not in RB_SEEDS and "{" not in x][:40]:
+        try:
+            c, _res = gm.case(g2c.read_grammar(t))
+        except (SyntaxError, g2c.Untranslatable):
+            c = None
+        if c:
+            kcases.append(c)
+    badk = common.run_cases(chk, "rb_kgen", gm.prelude(tokens_set()), gm.CASE_T, kcases, gm.OK, shard=16, timeout=900)
+    if badk is not None:
+        chk.oblige(f"correspondence K-gen on the grammars of the end-to-end theorem: Gen/Render.v over the generator model's IR equals "
+                   f"the real generator's output text on {len(kcases)} action-free grammars (the RB_SEEDS floor and explored ones)",
+                   not badk, json.dumps(badk[:5]))
     rnd = [(t, rb_term(t)) for t in texts if t not in RB_SEEDS]
     rnd = [(t, x) for t, x in rnd if x]
     bad = common.run_cases(chk, "rb_rnd", prelude + RB_PRELUDE, "(grammar * N)", [x for _, x in rnd], "rb_ok", shard=40, timeout=900)
